@@ -386,6 +386,13 @@ where
     }
 }
 
+#[cfg(foca_verif)]
+impl<T> Members<T> {
+    pub(crate) const fn verif_cursor(&self) -> usize {
+        self.cursor
+    }
+}
+
 #[derive(Debug, Clone, PartialEq)]
 #[must_use]
 pub(crate) struct ApplySummary<T> {
